@@ -406,5 +406,56 @@ pub fn run_keyed(ctx: &mut Ctx) {
             let _ = std::fs::remove_dir_all(&dir);
         }
     }
+    // ---- a LIVE manager whose registered shard passes its expiry and is deleted after the grace period: lookups through the
+    // same manager keep answering from the shards that are left (and never fail)
+    for round in 0..(if ctx.quick() { 1 } else { 4 }) {
+        let mut rng = ctx.rng.fork(61_000 + round);
+        let dir = tmp_root.join(format!("live-{round}")); std::fs::create_dir_all(&dir).unwrap();
+        let ga = gen_content(&mut rng, 4, 3, 0, false); let gb = gen_content(&mut rng, 4, 3, 0, false);
+        let (_, ba, _) = build(&ga); let (_, bb, _) = build(&gb);
+        let now = mdb_shard::shard_file::current_timestamp();
+        let patch = |b: &Vec<u8>, exp: u64| { let mut b = b.clone(); let fo = b.len() - 200; b[fo + 112..fo + 120].copy_from_slice(&exp.to_le_bytes()); b };
+        let (pa, pb) = (patch(&ba, now + 2), patch(&bb, u64::MAX));
+        let (na, nb) = (format!("{}.mdb", compute_data_hash(&pa).hex()), format!("{}.mdb", compute_data_hash(&pb).hex()));
+        std::fs::write(dir.join(&na), &pa).unwrap(); std::fs::write(dir.join(&nb), &pb).unwrap();
+        let replay = format!("{{\"suite\":\"keyed\",\"seed\":{},\"live_manager_round\":{round},\"history\":\"register A (expires in 2 s) and B (never expires) in one manager; wait 3 s; clean_expired_shards(dir, 0); query the same manager\"}}", ctx.seed);
+        let chunk_probes: Vec<MerkleHash> = ga.cas.iter().chain(gb.cas.iter()).filter(|c| !c.chunks.is_empty()).map(|c| c.chunks[0].chunk_hash).chain([rand_hash(&mut rng)]).collect();
+        let file_probes: Vec<MerkleHash> = ga.files.iter().chain(gb.files.iter()).map(|f| f.metadata.file_hash).chain([rand_hash(&mut rng)]).collect();
+        let b_chunks: BTreeSet<MerkleHash> = gb.cas.iter().flat_map(|c| c.chunks.iter().map(|x| x.chunk_hash)).collect();
+        let a_chunks: BTreeSet<MerkleHash> = ga.cas.iter().flat_map(|c| c.chunks.iter().map(|x| x.chunk_hash)).collect();
+        let b_files: BTreeSet<MerkleHash> = gb.files.iter().map(|f| f.metadata.file_hash).collect();
+        let out = rt.block_on(async {
+            let m = mdb_shard::ShardFileManager::new_in_session_directory(&dir).await?;
+            m.register_shards_by_path(&[&dir]).await?;
+            let mut before = Vec::new();
+            for h in &chunk_probes { before.push(m.chunk_hash_dedup_query(&[*h]).await.map(|a| a.is_some()).map_err(|e| e.to_string())); }
+            for h in &file_probes { before.push(mdb_shard::shard_file_reconstructor::FileReconstructor::get_file_reconstruction_info(&*m, h).await.map(|a| a.is_some()).map_err(|e| e.to_string())); }
+            std::thread::sleep(Duration::from_millis(3300));
+            MDBShardFile::clean_expired_shards(&dir, 0)?;
+            let deleted = !dir.join(&na).exists() && dir.join(&nb).exists();
+            let mut after = Vec::new();
+            for h in &chunk_probes { after.push(m.chunk_hash_dedup_query(&[*h]).await.map(|a| a.is_some()).map_err(|e| e.to_string())); }
+            for h in &file_probes { after.push(mdb_shard::shard_file_reconstructor::FileReconstructor::get_file_reconstruction_info(&*m, h).await.map(|a| a.is_some()).map_err(|e| e.to_string())); }
+            Ok::<_, mdb_shard::error::MDBShardError>((before, after, deleted))
+        });
+        match out {
+            Err(e) => ctx.fail("C18", "manager-registration-error", format!("live-manager history failed outside the lookups: {e}"), replay.clone()),
+            Ok((_, _, false)) => ctx.stat("live_manager_round_expired_shard_not_deleted"),
+            Ok((before, after, true)) => {
+                ctx.stat("live_manager_rounds_with_deleted_expired_shard");
+                let all: Vec<(String, MerkleHash)> = chunk_probes.iter().map(|h| ("chunk".to_string(), *h)).chain(file_probes.iter().map(|h| ("file".to_string(), *h))).collect();
+                for ((kind, h), (b, a)) in all.iter().zip(before.iter().zip(after.iter())) {
+                    match a {
+                        Err(e) => { ctx.fail("C18", "lookup-fails-after-expired-shard-deleted", format!("{kind} lookup of {} through a live manager fails after a registered shard passed its expiry and was deleted by clean_expired_shards: {e} (before the deletion the lookup gave {b:?})", h.hex()), replay.clone()); break; }
+                        Ok(ans) => {
+                            let in_b_only = if kind == "chunk" { b_chunks.contains(h) && !a_chunks.contains(h) } else { b_files.contains(h) };
+                            if in_b_only && *b == Ok(true) && !*ans { ctx.fail("C18", "answer-lost-after-expired-shard-deleted", format!("{kind} {} is stored in the shard that is still valid and was answered before; after the OTHER, expired shard was deleted the same manager no longer answers it", h.hex()), replay.clone()); break; }
+                        }
+                    }
+                }
+            }
+        }
+        let _ = std::fs::remove_dir_all(&dir);
+    }
     let _ = std::fs::remove_dir_all(&tmp_root);
 }
